@@ -67,6 +67,7 @@ type filler struct {
 	n        int
 	unfilled map[string]bool
 	fields   map[string]bool // "Type.Field" of every struct field visited
+	aliased  int             // pointers deliberately stored twice in one container
 }
 
 func (f *filler) id(p string) string { f.n++; return fmt.Sprintf("%s%d", p, f.n) }
@@ -130,6 +131,11 @@ func (f *filler) fill(v reflect.Value, depth int, path string) {
 		}
 		s := reflect.MakeSlice(t, n, n+f.r.Intn(3))
 		for i := 0; i < n; i++ {
+			if i > 0 && t.Elem().Kind() == reflect.Ptr && f.r.Intn(4) == 0 {
+				s.Index(i).Set(s.Index(i - 1)) // the same pointer twice
+				f.aliased++
+				continue
+			}
 			f.fill(s.Index(i), depth-1, path+"[]")
 		}
 		v.Set(s)
@@ -139,12 +145,21 @@ func (f *filler) fill(v reflect.Value, depth int, path string) {
 		if depth <= 0 {
 			n = 1
 		}
+		var prevElem reflect.Value
 		for i := 0; i < n; i++ {
 			k := reflect.New(t.Key()).Elem()
 			f.fill(k, 0, path+"{key}")
+			// one pointed-to value registered under two keys (legal, and common for
+			// dependent bodies: with and without an optional key attribute)
+			if i > 0 && t.Elem().Kind() == reflect.Ptr && f.r.Intn(3) == 0 {
+				m.SetMapIndex(k, prevElem)
+				f.aliased++
+				continue
+			}
 			e := reflect.New(t.Elem()).Elem()
 			f.fill(e, depth-1, path+"{}")
 			m.SetMapIndex(k, e)
+			prevElem = e
 		}
 		v.Set(m)
 	case reflect.Interface:
@@ -457,6 +472,7 @@ func (p c17) RunUnit(idx int, tier string, seed int64, focus map[string]string, 
 	for u := range f.unfilled {
 		rep.Distinct("unfillable", u)
 	}
+	rep.Count("pointers_stored_twice_in_a_container", int64(f.aliased))
 	rep.Distinct("root_types", name)
 }
 
